@@ -37,6 +37,7 @@ from spec.seq import N
 
 PROPERTY = "C23"
 LEVEL = "proof"
+TECHNIQUE = "product machine of the real multiport memory and the real amaranth.lib.memory.Memory on the elaborated netlist; relational invariant with ghost live-value tables and signal correspondence, one-step induction discharged by z3; the two ILVT memories without write ports only by bounded search from reset"
 ASSUMPTIONS = [
     "caller obligation from the property statement: no two write ports (with a non-zero enable) address the same row in one cycle; addresses below depth",
     "(depth, width, read/write port counts, init, transparency subsets, granularity where accepted) swept as listed; unbounded in inputs and history length",
